@@ -61,9 +61,10 @@ func planFor(prop, tier string) plan {
 }
 
 type workerDone struct {
-	Done     bool     `json:"done"`
-	Hits     []uint32 `json:"hits"`
-	IOYields uint64   `json:"io_yields"`
+	Done       bool     `json:"done"`
+	Hits       []uint32 `json:"hits"`
+	IOYields   uint64   `json:"io_yields"`
+	ClockReads uint64   `json:"clock_reads"`
 }
 
 type found struct {
@@ -99,6 +100,8 @@ type agg struct {
 	switchPairs map[uint64]struct{}
 	hits        map[uint32]struct{}
 	ioYields    uint64
+	clockReads  uint64
+	simNanos    float64
 	cross       map[uint64]uint64
 	crossRun    map[uint64]uint64
 	crossSeen   uint64
@@ -126,6 +129,7 @@ func (a *agg) add(r *RunResult, batch [2]uint64, prop string, raceBuild, alt boo
 	}
 	s := &r.Stats
 	a.ops += uint64(s.Ops)
+	a.simNanos += float64(s.SimNanos)
 	a.yields += s.Yields
 	a.seqYields += s.SeqYields
 	a.switches += s.Switches
@@ -252,6 +256,7 @@ func (e *driverEnv) runWorker(a *agg, race bool, from, n uint64, wdog string) (c
 					a.hits[h] = struct{}{}
 				}
 				a.ioYields += d.IOYields
+				a.clockReads += d.ClockReads
 				a.mu.Unlock()
 			}
 			continue
@@ -893,17 +898,19 @@ func (e *driverEnv) evidence(pl plan, a *agg, wall, mainWall float64, mainRuns, 
 		rule = "Each run builds 1-3 reports (level x language x vector) and exports generated template programs (valid / broken / character-edited) through ExportWithString, through simulated readers with benign scripts (chunking, stalls, data+EOF, WriterTo) and failing scripts, plus a complete sweep of the failure offset k in [0,len] x {error alone, error with data} for every template of at most 256 bytes, and nil-report / nil-reader cases; every second export operation reads the returned readers only after the following operation's exports (deferred read); reference = text/template itself. distinct_nontrivial counts distinct (fault class, reference verdict, script shape, template class) tuples in which the fault actually fired or the benign script was actually exercised."
 	}
 	cov := map[string]any{
-		"evaluations":                a.runs,
-		"distinct_nontrivial":        distinct,
-		"rule":                       rule,
-		"samples":                    samples,
-		"exhaustive":                 false,
-		"operations_executed":        a.ops,
-		"logical_steps_yield_events": a.yields + a.seqYields,
-		"simulated_time":             "not applicable: the library has no clock, timer or timeout; progress is measured in yield events (logical steps)",
-		"context_switches":           a.switches,
-		"preemptions":                a.preempt,
-		"runs_with_preemption":       a.withPreempt,
+		"evaluations":                      a.runs,
+		"distinct_nontrivial":              distinct,
+		"rule":                             rule,
+		"samples":                          samples,
+		"exhaustive":                       false,
+		"operations_executed":              a.ops,
+		"logical_steps_yield_events":       a.yields + a.seqYields,
+		"simulated_time":                   simTimeNote(a),
+		"simulated_clock_reads_by_library": a.clockReads,
+		"simulated_time_offered_hours":     int64(a.simNanos / 3600e9),
+		"context_switches":                 a.switches,
+		"preemptions":                      a.preempt,
+		"runs_with_preemption":             a.withPreempt,
 		"map_range_executions_under_simulated_order": a.mapRanges,
 		"distinct_run_fingerprints":                  len(a.fps),
 		"distinct_switch_site_pairs":                 len(a.switchPairs),
@@ -971,6 +978,13 @@ func (e *driverEnv) evidence(pl plan, a *agg, wall, mainWall float64, mainRuns, 
 		"wall_s":     wall,
 		"violations": violations,
 	}
+}
+
+func simTimeNote(a *agg) string {
+	if a.clockReads == 0 {
+		return "the library never read the clock (time.Now/Since/Until/Sleep/After are behind a simulated clock with per-task timelines and jumps of 1 ms .. 400 days between operations; 0 reads); progress is measured in yield events (logical steps)"
+	}
+	return fmt.Sprintf("simulated clock with per-task timelines and jumps of 1 ms .. 400 days between operations; the library read it %d times", a.clockReads)
 }
 
 func intMap(m map[int]int, names []string) map[string]int {
